@@ -241,3 +241,113 @@ func TestReplayAllocationStoreAddressChange(t *testing.T) {
 	}
 	replayCase("allocstore-address-change")
 }
+
+// KF-C20-14/15: the record Get returned is modified in place (new MAC / new address) and handed back to Update:
+// the keys it was indexed under are never removed.
+func TestReplayStateStoreInPlaceKeyChange(t *testing.T) {
+	macA, macB := idxMACs[0], idxMACs[1]
+	{
+		st := state.NewStore(state.DefaultConfig(), zap.NewNop())
+		h := &hist{comp: "statestore"}
+		l := &state.Lease{MAC: macA, IPv4: net.IPv4(10, 30, 1, 1).To4()}
+		_ = st.CreateLease(l)
+		cur, _ := st.GetLease(l.ID)
+		cur.MAC = macB
+		cur.IPv4 = net.IPv4(10, 30, 1, 2).To4()
+		_ = st.UpdateLease(cur)
+		h.logf("createLease(A,.1); l=GetLease; l.MAC=B; l.IPv4=.2; UpdateLease(l)")
+		byMAC, e1 := st.GetLeaseByMAC(macA)
+		byIP, e2 := st.GetLeaseByIP(net.IPv4(10, 30, 1, 1))
+		if e1 == nil || e2 == nil {
+			h.fail(t, "old-key-still-indexed-after-in-place-key-change/UpdateLease", "GetLeaseByMAC(A) = %v,%v; GetLeaseByIP(.1) = %v,%v although the only lease now has MAC B and address .2", leaseID(byMAC), e1, leaseID(byIP), e2)
+		}
+		replayCase("statestore-lease-in-place-key-change")
+	}
+	{
+		st := state.NewStore(state.DefaultConfig(), zap.NewNop())
+		h := &hist{comp: "statestore"}
+		s := &state.Session{MAC: macA, Type: "ipoe", IPv4: net.IPv4(10, 30, 2, 1).To4()}
+		_ = st.CreateSession(s)
+		cur, _ := st.GetSession(s.ID)
+		cur.MAC = macB
+		cur.IPv4 = net.IPv4(10, 30, 2, 2).To4()
+		_ = st.UpdateSession(cur)
+		h.logf("createSession(A,.1); s=GetSession; s.MAC=B; s.IPv4=.2; UpdateSession(s)")
+		byMAC, e1 := st.GetSessionByMAC(macA)
+		byIP, e2 := st.GetSessionByIP(net.IPv4(10, 30, 2, 1))
+		if e1 == nil || e2 == nil {
+			h.fail(t, "old-key-still-indexed-after-in-place-key-change/UpdateSession", "GetSessionByMAC(A) = %v,%v; GetSessionByIP(.1) = %v,%v although the only session now has MAC B and address .2", sessionID(byMAC), e1, sessionID(byIP), e2)
+		}
+		replayCase("statestore-session-in-place-key-change")
+	}
+}
+
+// TestReplayStateStoreInPlaceUpdateOfOlderRecord: one MAC, two sessions (IPoE + PPPoE) / two leases; the OLDER one is
+// updated in place (no key changes) and then deleted: the MAC must still lead to the newer one, and to nothing once
+// that is deleted too.
+func TestReplayStateStoreInPlaceUpdateOfOlderRecord(t *testing.T) {
+	mac := idxMACs[0]
+	{
+		st := state.NewStore(state.DefaultConfig(), zap.NewNop())
+		h := &hist{comp: "statestore"}
+		s1 := &state.Session{MAC: mac, Type: "ipoe"}
+		s2 := &state.Session{MAC: mac, Type: "pppoe"}
+		_ = st.CreateSession(s1)
+		_ = st.CreateSession(s2)
+		cur, _ := st.GetSession(s1.ID)
+		cur.Username = "u"
+		_ = st.UpdateSession(cur)
+		_ = st.DeleteSession(s1.ID)
+		h.logf("createSession(mac); createSession(mac); updateSession(first, in place); deleteSession(first)")
+		if got, err := st.GetSessionByMAC(mac); err != nil || got == nil || got.ID != s2.ID {
+			h.fail(t, "session-mac-index-lost/DeleteSession", "session %s of MAC %s is live but GetSessionByMAC = %v, %v", s2.ID, mac, sessionID(got), err)
+		}
+		_ = st.DeleteSession(s2.ID)
+		if got, err := st.GetSessionByMAC(mac); err == nil {
+			h.fail(t, "session-mac-index-stale/DeleteSession", "no session of MAC %s is left but GetSessionByMAC = %v, nil", mac, sessionID(got))
+		}
+		replayCase("statestore-session-in-place-older")
+	}
+	{
+		st := state.NewStore(state.DefaultConfig(), zap.NewNop())
+		h := &hist{comp: "statestore"}
+		l1 := &state.Lease{MAC: mac, IPv4: net.IPv4(10, 30, 1, 1).To4()}
+		l2 := &state.Lease{MAC: mac, IPv4: net.IPv4(10, 30, 1, 2).To4()}
+		_ = st.CreateLease(l1)
+		_ = st.CreateLease(l2)
+		cur, _ := st.GetLease(l1.ID)
+		cur.Hostname = "h"
+		_ = st.UpdateLease(cur)
+		_ = st.DeleteLease(l1.ID)
+		h.logf("createLease(mac,.1); createLease(mac,.2); updateLease(first, in place); deleteLease(first)")
+		if got, err := st.GetLeaseByMAC(mac); err != nil || got == nil || got.ID != l2.ID {
+			h.fail(t, "lease-mac-index-lost/DeleteLease", "lease %s of MAC %s is live but GetLeaseByMAC = %v, %v", l2.ID, mac, leaseID(got), err)
+		}
+		_ = st.DeleteLease(l2.ID)
+		if got, err := st.GetLeaseByMAC(mac); err == nil {
+			h.fail(t, "lease-mac-index-stale/DeleteLease", "no lease of MAC %s is left but GetLeaseByMAC = %v, nil", mac, leaseID(got))
+		}
+		replayCase("statestore-lease-in-place-older")
+	}
+}
+
+// TestReplayVLANOutOfRangeSTagReleased: an ISP-assigned outer tag below STagRange (AllocateWithSTag checks no range,
+// LoadFromStore takes what the store recorded) is given up; plain Allocate must keep handing out pairs inside the ranges.
+func TestReplayVLANOutOfRangeSTagReleased(t *testing.T) {
+	for _, how := range []string{"allocS", "load", "move"} {
+		v := newVlanSim(cfg22, []string{"a", "b", "c"})
+		ok := true
+		switch how {
+		case "allocS":
+			ok = v.step(t, vlanOp{kind: "allocS", nte: "a", stag: 99}) && v.step(t, vlanOp{kind: "release", nte: "a"})
+		case "load":
+			ok = v.step(t, vlanOp{kind: "load", recs: []loadRec{{"a", 50, 200}}}) && v.step(t, vlanOp{kind: "release", nte: "a"})
+		case "move":
+			ok = v.step(t, vlanOp{kind: "allocS", nte: "a", stag: 99}) && v.step(t, vlanOp{kind: "allocS", nte: "a", stag: 101})
+		}
+		if ok && v.step(t, vlanOp{kind: "alloc", nte: "b"}) && v.step(t, vlanOp{kind: "alloc", nte: "c"}) {
+			v.drain(t)
+		}
+		replayCase("vlan-out-of-range-stag-" + how)
+	}
+}
